@@ -182,7 +182,7 @@ func replayNativeRun(spec *HarnessSpec, v *Violation, wpath string) string {
 		if v.Kind == "panic" && !strings.Contains(s, "VERIF-PANIC") {
 			return "replay-different-failure"
 		}
-		if v.Kind == "assert" && !strings.Contains(s, "VERIF-ASSERT-FAILED") && !strings.Contains(s, "VERIF-PANIC") {
+		if v.Kind == "assert" && !strings.Contains(s, "VERIF-ASSERT-FAILED: "+v.Msg) {
 			return "replay-different-failure"
 		}
 		return "reproduced"
